@@ -514,7 +514,10 @@ impl<F: MatchFunc> Aligner<F> {
     pub fn consensus(&self) -> Vec<u8> {
         let mut consensus: Vec<u8> = vec![];
         let max_index = self.poa.graph.node_count();
-        let mut weight_score_next_vec: Vec<(i32, i32, usize)> = vec![(0, 0, 0); max_index + 1];
+        // one entry per node and no spare slot: on a graph without edges every score is 0 and
+        // `max_by_key` (which returns the last maximum) must land on a node
+        let mut weight_score_next_vec: Vec<(i32, i32, usize)> =
+            vec![(0, 0, usize::MAX); max_index];
         let mut topo = Topo::new(&self.poa.graph);
         // go through the nodes topologically
         while let Some(node) = topo.next(&self.poa.graph) {
